@@ -21,7 +21,7 @@ import (
 func init() { auxRegistry["sites"] = runSites }
 
 type mutSite struct {
-	File, Func, Kind, Stmt, Root, Prov string
+	File, Func, Kind, Stmt, Root, Prov, Target string
 }
 
 type goSite struct {
@@ -415,7 +415,7 @@ func runSites(tier string, seed uint64, out string) {
 						case "delete", "maps.Copy", "copy", "sort.Slice", "sort.Sort", "sort.SliceStable":
 							if len(t.Args) > 0 {
 								r, p := fi.provenance(t.Args[0], globals)
-								muts = append(muts, mutSite{file, fname, cn, nodeText(fset, t), r, p})
+								muts = append(muts, mutSite{file, fname, cn, nodeText(fset, t), r, p, nodeText(fset, t.Args[0])})
 							}
 						}
 					case *ast.AssignStmt:
@@ -423,17 +423,17 @@ func runSites(tier string, seed uint64, out string) {
 							switch lt := l.(type) {
 							case *ast.IndexExpr:
 								r, p := fi.provenance(lt.X, globals)
-								muts = append(muts, mutSite{file, fname, "index-assign", nodeText(fset, t), r, p})
+								muts = append(muts, mutSite{file, fname, "index-assign", nodeText(fset, t), r, p, nodeText(fset, lt.X)})
 							case *ast.StarExpr:
 								r, p := fi.provenance(lt.X, globals)
-								muts = append(muts, mutSite{file, fname, "deref-assign", nodeText(fset, t), r, p})
+								muts = append(muts, mutSite{file, fname, "deref-assign", nodeText(fset, t), r, p, nodeText(fset, lt.X)})
 							}
 							// x = append(y, ...) may write into y's spare capacity
 							if i < len(t.Rhs) {
 								if ce, ok := t.Rhs[i].(*ast.CallExpr); ok && callName(ce) == "append" && len(ce.Args) > 0 {
 									r, p := fi.provenance(ce.Args[0], globals)
 									if p != "Fresh" {
-										muts = append(muts, mutSite{file, fname, "append", nodeText(fset, t), r, p})
+										muts = append(muts, mutSite{file, fname, "append", nodeText(fset, t), r, p, nodeText(fset, ce.Args[0])})
 									}
 								}
 							}
@@ -453,13 +453,13 @@ func runSites(tier string, seed uint64, out string) {
 	var b strings.Builder
 	b.WriteString("(* generated by `vharness aux sites` from /repo's current source; do not edit *)\n")
 	b.WriteString("From Coq Require Import List String Bool.\nImport ListNotations.\nLocal Open Scope string_scope.\n\n")
-	b.WriteString("(* file, function, kind, statement, root variable, provenance *)\n")
+	b.WriteString("(* file, function, kind, mutated object, provenance of its root variable, statement *)\n")
 	b.WriteString("Definition mut_sites : list (string * string * string * string * string * string) := [\n")
 	for i, m := range muts {
 		if i > 0 {
 			b.WriteString(";\n")
 		}
-		fmt.Fprintf(&b, " (%s, %s, %s, %s, %s, %s)", coqStrS(m.File), coqStrS(m.Func), coqStrS(m.Kind), coqStrS(m.Stmt), coqStrS(m.Root), coqStrS(m.Prov))
+		fmt.Fprintf(&b, " (%s, %s, %s, %s, %s, %s)", coqStrS(m.File), coqStrS(m.Func), coqStrS(m.Kind), coqStrS(m.Target), coqStrS(m.Prov), coqStrS(m.Stmt))
 	}
 	b.WriteString("\n].\n\n(* file, function, has recovering defer, defers Done, body is only Wait/Done *)\n")
 	b.WriteString("Definition go_sites : list (string * string * bool * bool * bool) := [\n")
